@@ -7,7 +7,7 @@ import json, os, subprocess, sys, tempfile, shutil, re
 from concurrent.futures import ThreadPoolExecutor
 rule, kind = sys.argv[1], sys.argv[2]
 prefix = sys.argv[3] if len(sys.argv) > 3 else ''
-verif = '/verif'; repo = '/repo'; binp = verif + '/bin/alliancecheck'
+verif = '/verif'; repo = '/repo'; binp = os.environ.get('ALLIANCECHECK') or verif + '/bin/alliancecheck'
 env = dict(os.environ, GOFLAGS='-mod=mod', GOPROXY='off', GOSUMDB='off', GOTOOLCHAIN='local'); env.pop('GOWORK', None)
 idx = json.load(open(verif + '/mutants/index.json'))
 def verdicts(out):
